@@ -315,8 +315,8 @@ func safeExec(f func() string) (out string) {
 
 func segMonitor(ops, impl []string) []Violation {
 	var vs []Violation
-	acked := map[uint64]string{}   // index -> payload hex, content most recently acknowledged
-	var ackedLast, base uint64     // ackedLast = 0: nothing acked
+	acked := map[uint64]string{} // index -> payload hex, content most recently acknowledged
+	var ackedLast, base uint64   // ackedLast = 0: nothing acked
 	inflight := map[uint64]string{}
 	var inflightN uint64
 	recovered := false
